@@ -582,8 +582,15 @@ def D6(m, R):
     elif filt[ro.START] != '@.valid':
         problems.append('filter is %s, documented: drop settings that are not valid' % filt[ro.START])
     last = f.body[-1]
-    if not (isinstance(last, ast.Expr) and norm(last.value) in ('%s.set_ansi_str(str(%s))' % (selfn, selfn), '%s.set_ansi_str(%s)' % (selfn, selfn),
-                                                                  '%s.set_ansi_str(%s.to_str())' % (selfn, selfn))):
+    from ..shapes import local_aliases as _la, canon as _cn
+    last_txt = _cn(last.value, _la(f)) if isinstance(last, ast.Expr) else ''
+    # (a local holding str(self) must be taken after the filtering: it is the statement just before)
+    if isinstance(last, ast.Expr) and last_txt != norm(last.value):
+        prev = f.body[-2] if len(f.body) >= 2 else None
+        if not (isinstance(prev, ast.Assign) and isinstance(prev.targets[0], ast.Name) and prev.targets[0].id in names_in(last.value)):
+            last_txt = norm(last.value)
+    if not (isinstance(last, ast.Expr) and last_txt in ('%s.set_ansi_str(str(%s))' % (selfn, selfn), '%s.set_ansi_str(%s)' % (selfn, selfn),
+                                                         '%s.set_ansi_str(%s.to_str())' % (selfn, selfn))):
         problems.append('does not finish by re-parsing its own default rendering (%s)' % short(last))
     R.check(not problems, f, f.node, 'simplify filters START and STOP by .valid, then re-parses str(self)', '; '.join(problems), construct=cons)
     # partition / rpartition: the tuple returned when the separator is found / absent (any control-flow shape)
